@@ -528,3 +528,87 @@ Definition dist2_spec (a b : zenv) : option Z :=
       | None => Some (sqd p q)
       | Some d => Some (Z.min d (sqd p q))
       end) (env_points b) acc) (env_points a) None.
+
+(* ---------------- exact reading of float64 results on general (non-lattice) boxes ----------------
+   A finite double is m * 2^e exactly ([dy_of_bits]); differences, sums and products of such values
+   are computed exactly, and a float64 result of the implementation is accepted when it lies within
+   a stated number of units in the last place of the exact value (an infinite result only when the
+   exact value is beyond the float64 range). No float arithmetic is trusted here. *)
+Definition dy := (Z * Z)%type.                       (* (m, e) stands for m * 2^e *)
+Definition f64_mag (b : N) : Z := Z.of_N (N.land b 9223372036854775807).
+Definition f64_exp (b : N) : Z := f64_mag b / 4503599627370496.
+Definition dy_of_bits (b : N) : option dy :=
+  let e := f64_exp b in
+  let m := f64_mag b mod 4503599627370496 in
+  if e =? 2047 then None
+  else
+    let sig := if e =? 0 then m else 4503599627370496 + m in
+    Some (if N.testbit b 63 then - sig else sig, Z.max e 1 - 1075).
+Definition dy_zero : dy := (0, 0).
+Definition dy_align (x y : dy) : Z * Z :=
+  let e := Z.min (snd x) (snd y) in (Z.shiftl (fst x) (snd x - e), Z.shiftl (fst y) (snd y - e)).
+Definition dy_sub (x y : dy) : dy := let (a, b) := dy_align x y in (a - b, Z.min (snd x) (snd y)).
+Definition dy_add (x y : dy) : dy := let (a, b) := dy_align x y in (a + b, Z.min (snd x) (snd y)).
+Definition dy_mul (x y : dy) : dy := (fst x * fst y, snd x + snd y).
+Definition dy_le (x y : dy) : bool := let (a, b) := dy_align x y in a <=? b.
+Definition dy_lt (x y : dy) : bool := let (a, b) := dy_align x y in a <? b.
+Definition dy_abs (x : dy) : dy := (Z.abs (fst x), snd x).
+Definition dy_max (x y : dy) : dy := if dy_le x y then y else x.
+Definition dy_half (x : dy) : dy := (fst x, snd x - 1).
+(* tol units in the last place of the double with bits b *)
+Definition dy_ulps (tol : Z) (b : N) : dy := (tol, Z.max (f64_exp b) 1 - 1075).
+(* values of at least (2^54 - 1) * 2^970 = MaxFloat64 + half an ulp round to infinity *)
+Definition overflow_threshold : dy := (18014398509481983, 970).
+Definition is_inf_bits (b : N) : bool := f64_mag b =? inf_mag.
+(* is the double r within tol ulps (of r) of the exact value x; +-Inf only beyond the range *)
+Definition close_to (tol : Z) (x : dy) (r : N) : bool :=
+  match dy_of_bits r with
+  | Some v => dy_le (dy_abs (dy_sub x v)) (dy_ulps tol r)
+  | None => is_inf_bits r && dy_le overflow_threshold (dy_abs x)
+            && Bool.eqb (N.testbit r 63) (fst x <? 0)
+  end.
+
+Definition box_dy (b : box N) : option (box dy) :=
+  match dy_of_bits (minx b), dy_of_bits (miny b), dy_of_bits (maxx b), dy_of_bits (maxy b) with
+  | Some a, Some c, Some d, Some e => Some (MkBox a c d e)
+  | _, _, _, _ => None
+  end.
+
+(* Width / Height: the correctly rounded difference (within 1 ulp) *)
+Definition width_close (b : box dy) (w : N) : bool := close_to 1 (dy_sub (maxx b) (minx b)) w.
+Definition height_close (b : box dy) (h : N) : bool := close_to 1 (dy_sub (maxy b) (miny b)) h.
+(* Area against the exact product of the exact sides (within 2 ulps; underflow to a subnormal or
+   zero and overflow to +Inf are what rounding gives) *)
+Definition area_close (b : box dy) (a : N) : bool :=
+  close_to 2 (dy_mul (dy_sub (maxx b) (minx b)) (dy_sub (maxy b) (miny b))) a.
+(* Center: the midpoint within 2 ulps *)
+Definition mid_close (lo hi : dy) (c : N) : bool := close_to 2 (dy_half (dy_add lo hi)) c.
+(* the sum min+max itself leaves the float64 range although the midpoint does not *)
+Definition mid_sum_overflows (lo hi : dy) : bool := dy_le overflow_threshold (dy_abs (dy_add lo hi)).
+
+(* Distance: exact squared distance of two boxes, and the test that a double is its square root
+   within tol ulps: (r - u)^2 <= s <= (r + u)^2 *)
+Definition gap_dy (lo1 hi1 lo2 hi2 : dy) : dy :=
+  dy_max dy_zero (dy_max (dy_sub lo2 hi1) (dy_sub lo1 hi2)).
+Definition dist_sq_exact (a b : box dy) : dy :=
+  let gx := gap_dy (minx a) (maxx a) (minx b) (maxx b) in
+  let gy := gap_dy (miny a) (maxy a) (miny b) (maxy b) in
+  dy_add (dy_mul gx gx) (dy_mul gy gy).
+Definition sqrt_close (tol : Z) (s : dy) (r : N) : bool :=
+  match dy_of_bits r with
+  | Some v =>
+      let u := dy_ulps tol r in
+      let lo := dy_max dy_zero (dy_sub v u) in
+      let hi := dy_add v u in
+      dy_le dy_zero v && dy_le (dy_mul lo lo) s && dy_le s (dy_mul hi hi)
+  | None => is_inf_bits r && negb (N.testbit r 63)
+            && dy_le (dy_mul overflow_threshold overflow_threshold) s
+  end.
+(* the squares computed by dx*dx + dy*dy leave the normal float64 range although the distance
+   itself is representable: a non-zero gap whose square is below 2^-1022, or a sum of squares of
+   at least 2^1024 *)
+Definition sq_underflows (g : dy) : bool := negb (fst g =? 0) && dy_lt (dy_mul g g) (1, -1022).
+Definition dist_squares_out_of_range (a b : box dy) : bool :=
+  let gx := gap_dy (minx a) (maxx a) (minx b) (maxx b) in
+  let gy := gap_dy (miny a) (maxy a) (miny b) (maxy b) in
+  sq_underflows gx || sq_underflows gy || dy_le (1, 1024) (dist_sq_exact a b).
